@@ -4,7 +4,7 @@ import json, os
 ROOT = os.path.dirname(os.path.dirname(os.path.abspath(__file__)))
 CLAIMED = {
  # id: (design section, technique, level text, level note)
- 'C01': ('5/C01', 'CrossHair symbolic execution (z3) of the live parse-and-render pipeline on tiny symbolic documents, of every block reader for cursor progress, and of one-character neighbourhoods of each construct',
+ 'C01': ('5/C01', 'CrossHair symbolic execution (z3) of the live parse-and-render pipeline on tiny symbolic documents, of every block reader for cursor progress, of one-character neighbourhoods of each construct, and of the rendering phase of every bundled renderer on real tokens with one symbolic string attribute',
          'for ALL documents within the stated bounds (full Unicode at 1 character, 14-character alphabet above), all renderers and option vectors: no exception, every path terminates; reader progress carries termination to any number of lines',
          'bounds in the evidence; Pygments and urllib.parse.quote stubbed by contract; composition (induction on lines) is prose'),
  'C04': ('5/C04', 'CrossHair symbolic execution of Quote.read / List.read hand-off (recorder on tokenize_block), dispatch order and tiny whole documents',
@@ -19,16 +19,16 @@ CLAIMED = {
  'C07': ('5/C07', 'CrossHair symbolic execution of normalize_label, append_footnotes, the reference lookup and the two-phase parse with symbolic labels / placements',
          'for ALL labels over a stated finite alphabet (case-fold and whitespace variants) and ALL placements within the bounds: first definition wins, lookups agree with the reference normaliser, definitions are complete before any inline parse',
          'labels over a 14-character alphabet (str.casefold is C-level); the destination/title scanner grammar is only covered by skeletons'),
- 'C08': ('5/C08', 'CrossHair symbolic execution of the live escaping kernels and render_* templates + z3',
+ 'C08': ('5/C08', 'CrossHair symbolic execution of the live escaping kernels, the render_* templates and the rendering phase on real tokens with one symbolic string attribute + z3',
          'bounded symbolic check: for ALL strings up to the stated length over full Unicode and all option vectors, the escaping kernels and every HtmlRenderer template emit well-formed output',
          'bounds per lemma in the evidence; CrossHair str/regex models (gated against str/re each run); composition by structural induction is prose'),
- 'C09': ('5/C09', 'CrossHair symbolic execution of the Markdown renderer on tiny symbolic documents, inline strings, container prefixes (symbolic integers) and normal-form skeletons',
+ 'C09': ('5/C09', 'CrossHair symbolic execution of the Markdown renderer on tiny symbolic documents, inline strings, container prefixes (symbolic integers), normal-form skeletons and spelling skeletons (one symbolic character at the places where a construct may be spelled differently)',
          'round trip (same HTML, idempotent) for ALL documents up to the bound; byte-exact inline fragments for ALL strings over a 10-character alphabet up to the bound; prefixes for ALL marker spellings',
          'the finding classes named in the property need longer inputs than the bound and are neither confirmed nor refuted'),
- 'C10': ('5/C10', 'CrossHair symbolic execution of the greedy fill on words of symbolic length, of make_words, of the container budgets (unbounded integers) and of tiny whole documents with a symbolic limit',
+ 'C10': ('5/C10', 'CrossHair symbolic execution of the greedy fill on words of symbolic length, of make_words, of the container budgets (unbounded integers) of tiny whole documents and of spelling skeletons with a symbolic limit',
          'for ALL word lengths and limits the fill honours the bound and keeps the words in order; the child budget stays positive for ALL limits; meaning/idempotence on tiny documents',
          'words are length-only duck strings; documents beyond the W4 bound outside'),
- 'C11': ('5/C11', 'CrossHair symbolic execution of an inductive step: arbitrary (symbolic) scratch state, symbolic renderer/probe choice, symbolic fault point (hook, call count, list position)',
+ 'C11': ('5/C11', 'CrossHair symbolic execution of an inductive step: arbitrary (symbolic) scratch state, symbolic renderer/probe choice, symbolic fault point (hook, call count, list position); plus solver-enumerated histories of probe documents, each executed concretely in a fresh interpreter',
          'from ANY prior scratch state and after a fault at ANY of the enumerated crash points the observational invariant (token lists default, probe documents render to their fresh-interpreter baseline) holds',
          'Inv is observational; probe set listed in the evidence'),
  'C12': ('5/C12', 'CrossHair symbolic execution of traverse / Token.children / get_ast on all tree shapes (parent vectors) and of tiny whole documents; z3 regular-language query on Heading.pattern',
@@ -46,10 +46,10 @@ CLAIMED = {
  'C16': ('5/C16', 'CrossHair symbolic execution of the live span_tokenizer resolution code on abstract candidates with unbounded integer coordinates + z3',
          'for ALL integer coordinates/precedences of 2 and 3 candidates the real eval_tokens/relation/make_tokens code tiles the source and follows the documented rule; string-level cross-check with real custom tokens',
          'abstract candidates (stubs for source string, token classes, match objects); one recorded finding excluded by a narrow predicate'),
- 'C17': ('5/C17', 'CrossHair symbolic execution of the LaTeX escaping kernels, every render_* template and tiny whole documents against a balance/escape scanner',
+ 'C17': ('5/C17', 'CrossHair symbolic execution of the LaTeX escaping kernels, every render_* template, the rendering phase on real tokens with one symbolic string attribute and tiny whole documents against a balance/escape scanner',
          'for ALL text up to the bound over full Unicode the kernels escape every special; templates keep groups and environments balanced',
          'two recorded findings (image source, code language) excluded by call-site predicates; math spans set aside'),
- 'C18': ('5/C18', 'CrossHair symbolic execution of the contrib overrides against HtmlRenderer + z3 regular-language queries on the extension token patterns + structural override inventory',
+ 'C18': ('5/C18', 'CrossHair symbolic execution of the contrib overrides and of the rendering phase on real tokens with one symbolic string attribute against HtmlRenderer + z3 regular-language queries on the extension token patterns + structural override inventory',
          'overrides agree with the base for ALL inputs within the bounds; a match of the extension tokens implies the trigger text for strings of ANY length',
          'Pygments never executed symbolically (not reached without a code block)'),
  'C19': ('5/C19', 'CrossHair symbolic execution of TocRenderer.render_heading / toc with symbolic levels, depth and filter verdicts',
@@ -94,7 +94,7 @@ man = {
  ],
  'checks': checks,
  'not_applicable': na,
- 'notes': 'Every check is ./check <id>; exit 0 = held within the stated bounds, 1 = VIOLATION (replayed on the plain interpreter), 2 = harness error. Known findings: known_findings.json.',
+ 'notes': 'Every check is ./check <id>; exit 0 = held within the stated bounds, 1 = VIOLATION (replayed on the plain interpreter), 2 = harness error. The thorough tier is a superset of the quick one with a wall budget (no new obligation is started after --budget seconds, default 600; each obligation capped at --cap seconds, default 900; --budget 0 --cap 0 runs the complete list); obligations not started are reported under coverage.not_attempted, never as discharged. Known findings: known_findings.json.',
 }
 json.dump(man, open(os.path.join(ROOT, 'MANIFEST.json'), 'w'), indent=1)
 print('MANIFEST: %d checks, %d not_applicable' % (len(checks), len(na)))
